@@ -6,7 +6,8 @@ from s1 import hx
 PROP = "C10"
 
 PATHS = [b"a", b"b", b"a/a", b"a/b", b"b/a", b"a/b/a", b"a/b/c.txt", b"x/b/f.txt", b"x/y.txt", b"x", b"a/a/a/a", b"b/b", b"ab",
-         b"a/ab", b"x/b", b"ab/c/d.txt", b"ab/c", b"a/b/a/d.txt"]       # a/b/a/d.txt: below a directory (a/b/a) that is itself two levels below "a"       # "ab/…": a sibling whose NAME merely starts with "a" (string prefix, not a path prefix)
+         b"a/ab", b"x/b", b"ab/c/d.txt", b"ab/c", b"a/b/a/d.txt",
+         "caf\u00e9".encode(), "cafe\u0301".encode(), "cafe\u0301/x.bin".encode(), "caf\u00e9/x.bin".encode()]     # composed / decomposed: different names       # a/b/a/d.txt: below a directory (a/b/a) that is itself two levels below "a"       # "ab/…": a sibling whose NAME merely starts with "a" (string prefix, not a path prefix)
 FLAGS = ["-", "d", "dr"]
 
 
@@ -152,6 +153,12 @@ def cli_stream(R, drv, rng, tier, scenarios):
             acc = []          # indices accepted so far
             hist = []
             for g in groups:
+                ip_ = os.path.join(proj.root, ".dud", "index")
+                if n_cli % 3 == 1 and os.path.exists(ip_) and os.path.getsize(ip_) > 0:
+                    # the index was re-saved by another program WITHOUT its final newline (an editor, a merge tool, printf '%s')
+                    raw_ = open(ip_, "rb").read()
+                    open(ip_, "wb").write(raw_.rstrip(b"\n"))
+                    hist.append("index re-saved without a final newline")
                 rc, so, se = proj.dud(["stage", "add"] + [os.fsdecode(sc[k]["sp"]) for k in g], cwd=proj.root)
                 hist.append("stage add %s -> exit %d" % (" ".join(sc[k]["sp"].decode() for k in g), rc))
                 want = spec_accepts([sc[k] for k in acc + g])
@@ -167,7 +174,7 @@ def cli_stream(R, drv, rng, tier, scenarios):
                 if rc == 0:
                     acc += g
                     rc2, so2, se2 = proj.dud(["status"], cwd=proj.root)
-                    if b"load index from" in se2:
+                    if b"load index from" in se2 or (rc2 != 0 and b"no such file or directory" in se2):
                         viol.append(dict(what="unloadable", history=list(hist), detail="the index written by a successful `dud stage add` cannot be loaded: %s" % se2.decode(errors="replace")[-200:]))
                         break
             else:
